@@ -724,3 +724,88 @@ def c12(prop, tier, seed):
     return {"level": "model_checking", "coverage": cov, "mismatches": mism, "replay_with": "",
             "assumptions": ["interleavings are exhaustive in the model only; on the code the race detector is sound for the executions it sees",
                             "the lock-discipline table of spec/CacheConc.tla is a transcription of cache.go (read/write sets per operation)"]}
+
+
+# ---------------------------------------------------------------------------------------
+# family: schema (C17 C18) - tools/schema2tla.py, spec/Schema.tla, harness schema-docs / oracle-schema
+
+DRAFT07_UNIMPLEMENTED = {"multipleOf", "exclusiveMaximum", "exclusiveMinimum", "maxLength", "minLength", "pattern", "additionalItems", "maxItems",
+                         "minItems", "uniqueItems", "contains", "maxProperties", "minProperties", "additionalProperties", "dependencies",
+                         "propertyNames", "enum", "const", "allOf", "anyOf", "oneOf", "not", "if", "then", "else"}
+
+
+@check("C17", "C18")
+def schema_family(prop, tier, seed):
+    import schema2tla
+    vlib.build_harness()
+    # 1. token documents from the SpecDoc generator
+    runs = [("MCSpecDoc", "SpecDoc_quick.cfg" if tier == "quick" else "SpecDoc_thorough.cfg", {})]
+    if tier == "thorough":
+        runs.append(("MCSpecDoc", "SpecDoc_sim.cfg", dict(simulate="num=6", depth=4, seed=seed, workers=4)))
+    rs = parallel(*[(lambda m=m, c=c, kw=kw: run_tlc(m, c, deadlock=True, timeout=3000, **kw)) for (m, c, kw) in runs])
+    trows = [row for r in rs for row in r.rows]
+    f1, f2, f3 = scratch_file("schema-tokens.ndjson"), scratch_file("schema-docs.ndjson"), scratch_file("schema-cases.ndjson")
+    write_rows(trows, f1)
+    try:
+        h = vlib.build_harness()
+        p = vlib.sh([h, "schema-docs", "-cases", f1, "-out", f2, "-max-mutations", "1500" if tier == "quick" else "20000"], env=vlib.goenv(), timeout=1800)
+        docs = [json.loads(l) for l in open(f2)]
+        # 2. the oracle: the shipped schema files evaluated by TLC on every document
+        text, tagged_docs, unknown = schema2tla.prepare(vlib.REPO, [json.loads(json.dumps(d["doc"])) for d in docs])
+        bad = sorted(set(u.split(":")[0] for u in unknown) & (DRAFT07_UNIMPLEMENTED | {"patternProperties"}))
+        if bad:
+            raise ToolFailure("the schema files use keywords the TLA+ evaluator does not cover: %s" % bad)
+        ft = scratch_file("schema-tagged.ndjson")
+        write_rows(tagged_docs, ft)
+        try:
+            tr = run_tlc("Schema", "Schema.cfg", env_extra={"DOCS": ft}, keep={"SchemaFiles.tla": text}, workers=1, timeout=3000)
+        finally:
+            os.unlink(ft)
+        model_must_hold(tr, "Schema.cfg")
+        verdict = {r["i"]: r["valid"] for r in tr.rows}
+        if len(verdict) != len(docs):
+            raise ToolFailure("oracle evaluated %d of %d documents" % (len(verdict), len(docs)))
+        nvalid = sum(1 for v in verdict.values() if v)
+        if nvalid == 0 or nvalid == len(docs):
+            raise ToolFailure("vacuous oracle: %d of %d documents valid" % (nvalid, len(docs)))
+        for i, d in enumerate(docs):
+            d["valid"] = verdict[i + 1]
+        write_rows(docs, f3)
+        res, err = run_harness("oracle-schema", ["-cases", f3, "-seed", seed, "-repo", vlib.REPO], timeout=3000)
+        res18 = None
+        if prop == "C18":
+            res18, _ = run_harness("oracle-c18", ["-cases", f3, "-seed", seed], timeout=3000)
+    finally:
+        for f in (f1, f2, f3):
+            if os.path.exists(f):
+                os.unlink(f)
+    tool_errors(res["mismatches"])
+    mine = tagged(res["mismatches"], prop)
+    if res18 is not None:
+        for m in tagged(res18["mismatches"], prop):
+            m["replay_sub"] = "oracle-c18"
+            mine.append(m)
+        if res18["evaluations"] == 0:
+            raise ToolFailure("vacuous: no library-valid document reached the validator-installed round trip")
+    extra = res.get("extra", {})
+    cov = {"validator_installed_round_trips": res18["evaluations"] if res18 else None,
+           "states": tr.distinct + sum(r.distinct for r in rs), "transitions": max(tr.generated, 1) + sum(r.generated for r in rs),
+           "traces_validated_against_impl": res["evaluations"], "evaluations": res["evaluations"], "distinct_nontrivial": res["distinct_nontrivial"],
+           "entry_point_verdicts": res["steps"], "schema_valid_docs": extra.get("schema_valid_docs"), "library_valid_docs": extra.get("library_valid_docs"),
+           "ill_formed_annotation_docs": extra.get("ill_formed_annotation_docs"), "keywords_ignored_as_unknown": unknown,
+           "rule": "documents: every token document of the SpecDoc generator rendered to JSON, every single-position JSON mutation of the base documents "
+                   "(member removed; value replaced by a string, integer, float, boolean, null, empty/non-empty array and object; numbers set to "
+                   "-1, 0, 1, 2^32-1, 2^32, 2^63-1, 2^63, -2^63, -2^63-1, 2^64, 1.5; an extra member in every object), the re-marshalled form of every "
+                   "document a Go value can express, and five non-object documents. verdict: spec/Schema.tla evaluating a module generated from the "
+                   "shipped schema files at check time. code: ValidateData (JSON and YAML bytes), ValidateFile (.json, .yaml), ValidateReader, "
+                   "ReadAndValidate, ValidateType, Validate(*Spec) under the builtin schema, an externally loaded copy, 'none' and a nil schema. "
+                   "C18 additionally: every library-valid document is written as .json and .yaml with SetSpecValidator(BuiltinSchema()) "
+                   "installed, read back, refreshed and validated as a file. "
+                   "every document is non-trivial (the oracle rejects about half of them)",
+           "samples": [{"doc": docs[len(docs) // 2]["doc"], "valid": docs[len(docs) // 2]["valid"]}], "exhaustive": True,
+           "checker_cmd": "tlc MCSpecDoc ; harness schema-docs ; tools/schema2tla.py ; tlc Schema ; harness oracle-schema"}
+    return {"level": "model_checking", "coverage": cov, "mismatches": mine, "replay_with": "oracle-schema",
+            "assumptions": ["the evaluator implements the draft-07 keywords the shipped files use (type, properties, required, items, $ref, minimum, maximum, "
+                            "patternProperties '.{1,}'); any other validation keyword makes the check stop with exit 2",
+                            "documents with ill-formed annotation keys: only 'rejects when the files reject' and equal verdicts for both encodings are required",
+                            "library-valid (C18) = Cache.WriteSpec of the decoded value succeeds without a validator installed"]}
